@@ -302,9 +302,11 @@ func (s *reportSim) exec(PC Address, w *warrior) {
 	// do post-increments, if needed, after IRA has been assigned
 	if IR.AMode == A_INCREMENT {
 		s.mem[PIP].A = (s.mem[PIP].A + 1) % s.m
+		s.Report(Report{Type: WarriorIncrement, WarriorIndex: w.index, Address: PIP})
 	}
 	if IR.AMode == B_INCREMENT {
 		s.mem[PIP].B = (s.mem[PIP].B + 1) % s.m
+		s.Report(Report{Type: WarriorIncrement, WarriorIndex: w.index, Address: PIP})
 	}
 
 	// prepare B indirect references and decrement or save increment pointer
@@ -316,6 +318,7 @@ func (s *reportSim) exec(PC Address, w *warrior) {
 			if IR.BMode == A_DECREMENT {
 				dptr := (PC + WPB) % s.m
 				s.mem[dptr].A = (s.mem[dptr].A + s.m - 1) % s.m
+				s.Report(Report{Type: WarriorDecrement, WarriorIndex: w.index, Address: dptr})
 			}
 
 			if IR.BMode == A_INCREMENT {
@@ -330,6 +333,7 @@ func (s *reportSim) exec(PC Address, w *warrior) {
 			if IR.BMode == B_DECREMENT {
 				dptr := (PC + WPB) % s.m
 				s.mem[dptr].B = (s.mem[dptr].B + s.m - 1) % s.m
+				s.Report(Report{Type: WarriorDecrement, WarriorIndex: w.index, Address: dptr})
 			}
 
 			if IR.BMode == B_INCREMENT {
